@@ -57,13 +57,38 @@ Clause(c) ==
      ELSE IF \E p \in PixSetOf(c.coverage) : c.bkg[p[1] + 1][p[2] + 1] # c.fill_k \/ c.rms[p[1] + 1][p[2] + 1] # c.fill_k THEN "fill_value_on_coverage_mask"
      ELSE IF c.zoom /\ \E p \in Grid(h, w) \ PixSetOf(c.coverage) : c.bkg[p[1] + 1][p[2] + 1] < lo - 2 \/ c.bkg[p[1] + 1][p[2] + 1] > hi + 2 THEN "zoom_map_within_mesh_range"
      ELSE "ok"
+\* kind "filter": the meshes after the median filter.  raw / rawrms are the (validated) interpolated meshes with
+\* filter_size = 1; the filtered value of a box is the median of the raw values in the filter window centred on it
+\* and clipped to the mesh; with a filter_threshold only boxes whose RAW BACKGROUND value exceeds it are replaced (in
+\* both meshes).  The full maps of the filtered run are finite, equal fill on the coverage mask and (zoom) stay in the
+\* range of the filtered mesh.
+FilterClause(c) ==
+  LET ny == Len(c.raw)  nx == Len(c.raw[1])  fy == c.fs[1]  fx == c.fs[2]  hy == fy \div 2  hx == fx \div 2
+      G == Grid(ny, nx)
+      Win(p) == {w \in G : /\ w[1] >= p[1] - hy /\ w[1] < p[1] - hy + fy /\ w[2] >= p[2] - hx /\ w[2] < p[2] - hx + fx}
+      raw == [p \in G |-> c.raw[p[1] + 1][p[2] + 1]]      rawrms == [p \in G |-> c.rawrms[p[1] + 1][p[2] + 1]]
+      tieP(p) == c.sel /\ Near(raw[p], c.thr, 2)
+      filt(p) == ~c.sel \/ raw[p] > c.thr
+      bad(m, src) == \E p \in G : ~tieP(p) /\
+                       (IF filt(p) THEN ~Near(2 * m[p[1] + 1][p[2] + 1], Median2(src, Win(p)), 3) ELSE m[p[1] + 1][p[2] + 1] # src[p])
+      h == Len(c.bkg)  w == Len(c.bkg[1])
+      all == {c.mesh[p[1] + 1][p[2] + 1] : p \in G}
+  IN IF c.raised THEN "valid_input_raises"
+     ELSE IF Len(c.mesh) # ny \/ Len(c.mesh[1]) # nx \/ Len(c.rmsmesh) # ny \/ Len(c.rmsmesh[1]) # nx THEN "mesh_shape_is_ceil_of_shape_over_box"
+     ELSE IF bad(c.mesh, raw) THEN "filtered_mesh_is_window_median_of_raw_mesh"
+     ELSE IF bad(c.rmsmesh, rawrms) THEN "filtered_rms_mesh_is_window_median_of_raw_rms_mesh"
+     ELSE IF ~c.map_finite THEN "maps_finite_everywhere"
+     ELSE IF \E p \in PixSetOf(c.coverage) : c.bkg[p[1] + 1][p[2] + 1] # c.fill_k \/ c.rms[p[1] + 1][p[2] + 1] # c.fill_k THEN "fill_value_on_coverage_mask"
+     ELSE IF c.zoom /\ \E p \in Grid(h, w) \ PixSetOf(c.coverage) : c.bkg[p[1] + 1][p[2] + 1] < Min(all) - 2 \/ c.bkg[p[1] + 1][p[2] + 1] > Max(all) + 2 THEN "zoom_map_within_mesh_range"
+     ELSE "ok"
 PairClause(c) ==
   IF c.raised THEN c.rel
   ELSE IF Len(c.a) # Len(c.b) THEN c.rel
   ELSE IF \E k \in 1..Len(c.a) : ~Near(c.a[k], c.b[k], c.tol) THEN c.rel ELSE "ok"
 Init == i = 1
 Next == /\ i <= Len(Cases)
-        /\ LET cl == IF Cases[i].kind = "pair" THEN PairClause(Cases[i]) ELSE Clause(Cases[i]) IN
+        /\ LET cl == IF Cases[i].kind = "pair" THEN PairClause(Cases[i])
+                     ELSE IF Cases[i].kind = "filter" THEN FilterClause(Cases[i]) ELSE Clause(Cases[i]) IN
            PrintT(<<"V", ToJson([id |-> Cases[i].id, ok |-> (cl = "ok"), clause |-> cl])>>)
         /\ i' = i + 1
 TSpec == Init /\ [][Next]_i
